@@ -9,7 +9,7 @@ DECIDES = ('non-Bezier input (degree + 1 != number of points), a non-positive el
            'under the validation flag, in exact normal form, and the flag test dominates all computation (GD4); the accumulator rows have the '
            'coordinate count of an input point, not the point count (DK1); elevation sums, for every output row i, over exactly j = max(0, i - num) '
            '.. min(degree, i) and divides by C(degree + num, i): the index/argument structure of Eq. 5.36 (EQ536); the end rows of the reduced '
-           'polygon are the input end rows (END1); the input polygon is never mutated (PU1). [SKEL, bounded] every output row of elevation '
+           'polygon are the input end rows (END1); the input polygon is never mutated (PU1); in operations.degree_operations the knot vector of every Bezier segment is rebuilt from the segment\'s own knots - no literal stands for an end knot, elevation pads with copies of knot [0] in front and knot [-1] behind (KV2). [SKEL, bounded] every output row of elevation '
            '(degree 1..8 x num 1..4) and of reduction (degree 2..9) is assigned a defined point and no row is consumed before it is computed.')
 NOT_DECIDED = 'that the assigned values equal the Bernstein-basis identities (binomial blending values), that reduction inverts elevation numerically, floating-point accuracy of binomial quotients.'
 TECHNIQUE = 'CFG dominance of validation guards, polynomial normal forms of bounds and binomial arguments, kind rule on accumulator shape; bounded index-skeleton interpretation for row coverage'
@@ -94,9 +94,69 @@ def check(m, run):
         run.ob('PU1.input-not-mutated', fi.key, not mu, 'control polygon is only read' if not mu else 'input polygon mutated at `%s`' % norm(mu[0].node)[:70], site(fi))
     eq536(m, run, el)
     end1(m, run, rd)
+    kv2(m, run)
     skel_rows(m, run)
     run.floor('GD4.validation-guard', 4, 'bezier x2, num, degree<2')
     run.floor('DK1.accumulator-shape', 2, 'elevation and reduction accumulators')
+
+
+def kv2(m, run):
+    """operations.degree_operations: the knot vector of every Bezier segment is rebuilt from that segment's own knots - elevation pads
+    it with copies of its first knot in front and of its last knot behind, reduction drops one knot at either end; no numeric literal
+    stands for a knot (segments of a shape whose domain is not [0, 1] keep their interval), and the pad count is the elevation count"""
+    fi = m.func('operations.degree_operations')
+    n = 0
+    for a in walk_no_nested(fi.node):
+        if not (isinstance(a, ast.Assign) and len(a.targets) == 1 and isinstance(a.targets[0], ast.Attribute) and a.targets[0].attr == 'knotvector'
+                and isinstance(a.targets[0].value, ast.Name)):
+            continue
+        who = a.targets[0].value.id
+        if who == params_of(fi.node)[0]:
+            continue          # the final assignment of the linked knot vector
+        n += 1
+        own = '%s.knotvector' % who
+        lits, foreign = [], []
+
+        def visit(e):
+            if isinstance(e, ast.Subscript):
+                if norm(e.value) != own:
+                    foreign.append(norm(e))
+                return          # indices are not knot values
+            if isinstance(e, ast.Call) and norm(e.func) == 'range':
+                return
+            if isinstance(e, ast.Attribute) and e.attr.startswith('knotvector') and norm(e) != own:
+                foreign.append(norm(e))
+            if isinstance(e, ast.Constant) and isinstance(e.value, (int, float)) and not isinstance(e.value, bool):
+                par = getattr(e, '_sa_parent', None)
+                # a literal is a knot value when it is a list element / comprehension element
+                if isinstance(par, (ast.List, ast.ListComp)):
+                    lits.append(e.value)
+            for c in ast.iter_child_nodes(e):
+                visit(c)
+        visit(a.value)
+        ok = not lits and not foreign
+        run.ob('KV2.segment-knots-from-own-knots', '%s :: %s' % (fi.key, norm(a)[:70]), ok,
+               'built from %s only' % own if ok else
+               ('the literal(s) %s stand for end knots: a segment of a shape whose knot range is not [0, 1] gets the wrong interval' % lits if lits else
+                'knots are taken from %s, not from the segment itself' % foreign), site(fi, a))
+        # ends: leading pad reads [0], trailing pad reads [-1]
+        if isinstance(a.value, ast.BinOp):
+            parts = []
+
+            def flat(e):
+                if isinstance(e, ast.BinOp) and isinstance(e.op, ast.Add):
+                    flat(e.left)
+                    flat(e.right)
+                else:
+                    parts.append(e)
+            flat(a.value)
+            if len(parts) == 3:
+                idx = lambda e: sorted({norm(x.slice) for x in ast.walk(e) if isinstance(x, ast.Subscript) and norm(x.value) == own})
+                oke = idx(parts[0]) == ['0'] and idx(parts[2]) == ['-1']
+                run.ob('KV2.pad-ends', '%s :: %s' % (fi.key, norm(a)[:50]), oke, 'front pad copies knot [0], back pad knot [-1]' if oke else
+                       'front pad reads %s and back pad reads %s of the knot vector: expected [0] and [-1]' % (idx(parts[0]), idx(parts[2])), site(fi, a))
+    if n < 2:
+        raise AnalysisError('degree_operations: segment knot vector updates not found')
 
 
 def dk1(run, fi, pts):
